@@ -53,12 +53,14 @@ type Tunnel struct {
 }
 
 // Write puts the packet on the transport and updates the statistics for bytes sent
-func (t *Tunnel) Write(pkt []byte) {
+func (t *Tunnel) Write(pkt []byte) error {
 	t.writeMu.Lock()
 	defer t.writeMu.Unlock()
 
-	n, _ := t.transportOut.WritePacket(pkt)
+	n, err := t.transportOut.WritePacket(pkt)
 	t.BytesSent += int64(n)
+
+	return err
 }
 
 // Read picks up a packet from the transport and returns the packet type
